@@ -396,6 +396,11 @@ Definition sx_op (server : bool) (B : Z) (o : sx) : option wop :=
   | SL [SZ 2; SZ opc; SZ n] => Some (OMsg (frames_of_message server B opc n))
   | SL [SZ 3] => Some OCloseConn
   | SL [SZ 4; SZ len] => Some (OPing (mk_frame websocket_PongMessage true len 1))
+  | SL [SZ 5; SZ _] => Some OCloseConn       (* a transport write fault is armed: from the code's point of view the
+                                              transport fails from its next write on (the failure is sticky) *)
+  | SL [SZ 6; SZ _] => Some (OPing (mk_frame websocket_CloseMessage true 2 1))   (* a peer Close arrives: the reading
+                                              goroutine echoes it through the default close handler (WriteControl) *)
+  | SL [SZ 7; SZ n] => Some (OCtl false (mk_frame websocket_CloseMessage true n 1))   (* WritePreparedMessage(Close) *)
   | _ => None
   end.
 
